@@ -12,8 +12,10 @@ from dataclasses import asdict, dataclass, field
 from typing import Any, Callable
 
 VERIF = os.path.dirname(os.path.dirname(os.path.abspath(__file__)))
-EVIDENCE_DIR = os.path.join(VERIF, "evidence")
-REPLAY_DIR = os.path.join(VERIF, "replays")
+# VF_OUT redirects evidence and replays (used when the checks are pointed at a scratch copy of the repository via VF_REPO)
+_OUT = os.environ.get("VF_OUT") or VERIF
+EVIDENCE_DIR = os.path.join(_OUT, "evidence")
+REPLAY_DIR = os.path.join(_OUT, "replays")
 KNOWN_FILE = os.path.join(VERIF, "known_findings.json")
 
 EXIT_OK, EXIT_VIOLATION, EXIT_HARNESS = 0, 1, 2
